@@ -82,7 +82,7 @@ def run_miri(pid, job, seed, tier, work):
         e = dict(env)
         e["MIRIFLAGS"] = "-Zmiri-disable-isolation -Zmiri-many-seeds=%d..%d" % (lo, hi)
         cmd = ["cargo", "+nightly", "miri", "run", "--offline", "--bin", "flowcheck", "--target-dir",
-               os.path.join(engines.HARNESS, "target-miri"), "--", "miri", "--script", str(i % 7)]
+               os.path.join(engines.HARNESS, "target-miri"), "--", "miri", "--script", str(i % 8)]
         try:
             p = subprocess.run(cmd, cwd=engines.HARNESS, env=e, stdout=subprocess.PIPE, stderr=subprocess.PIPE, text=True,
                                timeout=job.get("timeout_s", 1500))
